@@ -153,6 +153,12 @@ Definition cif_sites_expected : list site := [
   ("_parseCifDataSource", "call:_parseCifBlock", [1], 1);
   ("_parseCifDataSource", "call:_suppressCifParserOutput", [1], 1);
   ("_parseCifDataSource", "raise:StructureFormatError", [], 1);
+  ("_parseSymOpTranslation", "call:ValueError", [], 2);
+  ("_parseSymOpTranslation", "call:findall", [], 1);
+  ("_parseSymOpTranslation", "div", [], 1);
+  ("_parseSymOpTranslation", "float", [], 4);
+  ("_parseSymOpTranslation", "raise:ValueError", [], 2);
+  ("_parseSymOpTranslation", "strformat", [], 2);
   ("_parse_atom_site_aniso_label", "call:GetLoop", [], 1);
   ("_parse_atom_site_aniso_label", "call:_get_atom_setters", [], 1);
   ("_parse_atom_site_aniso_label", "call:fset", [], 1);
@@ -208,10 +214,9 @@ Definition cif_sites_expected : list site := [
   ("_tr_atom_site_label", "call:_tr_atom_site_type_symbol", [], 1);
   ("_tr_atom_site_occupancy", "call:leading_float", [], 1);
   ("getSymOp", "call:SymOp", [], 1);
-  ("getSymOp", "call:eval", [], 1);
+  ("getSymOp", "call:_parseSymOpTranslation", [], 1);
   ("getSymOp", "index", [], 2);
   ("getSymOp", "index_store", [], 2);
-  ("getSymOp", "strformat", [], 1);
   ("leading_float", "float", [], 2);
   ("parse", "call:_parseCifDataSource", [], 1);
   ("parseFile", "call:_parseCifDataSource", [], 1);
